@@ -53,7 +53,7 @@ def bookkeeping_stress(tier, scripts=None):
     if err:
         return None, {}
     rounds = 120 if tier == 'quick' else 1000
-    scripts = scripts or [('pn%d' % t, ['maxthreads %d' % mgr.MAXTHREADS, 'threads %d' % t, 'update', 'pcreatenew %d 3' % rounds]) for t in (2, 4, 8)]
+    scripts = scripts or [('pn%d' % t, ['maxthreads %d' % mgr.MAXTHREADS, 'threads %d' % t, 'update', 'pcreatenew %d 3' % rounds, 'pregister %d' % (rounds * 3)]) for t in (2, 4, 8)]
     io, _ = emcmp.run_driver(drv, emcmp.scripts_text(scripts), os.path.join(vlib.BUILD, 'work', PROP + '-pn'), timeout=1200)
     created = 0
     for name, blocks in emcmp.parse(io):
@@ -61,6 +61,10 @@ def bookkeeping_stress(tier, scripts=None):
             if b['crash']:
                 return (name, 'implementation crashed: ' + b['crash'], dict(scripts)[name]), {}
             r = (b['tags'].get('R') or ['R'])[0]
+            if 'pregister' in r:
+                kv = dict(re.findall(r'(\w+)=(\d+)', r))
+                if int(kv['split']):
+                    return (name, 'tasks registering one new component description at the same time: in %s round(s) they were told different ids for it' % kv['split'], dict(scripts)[name]), {}
             if 'pcreatenew' in r:
                 kv = dict(re.findall(r'(\w+)=(\d+)', r))
                 created += int(kv.get('created', 0))
@@ -73,7 +77,7 @@ def bookkeeping_stress(tier, scripts=None):
 def run(tier, seed, replay=None):
     rng = vlib.Rng(seed)
     rl = [l.rstrip('\n') for l in open(replay) if l.strip() and not l.startswith('#')] if replay else []
-    only_pn = any(l.startswith('pcreatenew') for l in rl)
+    only_pn = any(l.startswith('pcreatenew') or l.startswith('pregister') for l in rl)
     bad, pn_cov = bookkeeping_stress(tier, [('replay', rl)] if only_pn else None) if (only_pn or not replay) else (None, {})
     if bad or only_pn:
         if not bad:
